@@ -114,6 +114,11 @@ type Options struct {
 	// (keep running; else lowest thread id) costs one deviation ("delay
 	// bounding"), which keeps the tree polynomial in the number of points.
 	FreeSwitch bool
+	// Reverse makes the default scheduler prefer the NEWEST enabled thread
+	// (highest id) instead of the oldest when the running thread cannot
+	// continue. Delay bounding explores a ball around the default schedule;
+	// running a program under both defaults covers two quite different balls.
+	Reverse bool
 	// StartNanos is the initial reading of the virtual clock.
 	StartNanos int64
 }
@@ -559,7 +564,11 @@ func (s *sched) pick(c *Thread) *Thread {
 			n++
 		}
 		var idle *Thread
-		for i := 0; i < s.nthreads; i++ {
+		for j := 0; j < s.nthreads; j++ {
+			i := j
+			if s.opt.Reverse {
+				i = s.nthreads - 1 - j
+			}
 			t := s.threads[i]
 			if t == c || t.state != tsPending {
 				continue
